@@ -40,6 +40,7 @@ int main(int argc, char **argv) {
     auto sp = line.find(' ');
     std::string cmd = line.substr(0, sp), src = unhex(sp == std::string::npos ? "-" : line.substr(sp + 1));
     std::string res;
+    unlink("h_asm.out");
     alarm(10);   // watchdog: a hang in the real code kills the process (SIGALRM), reported as `fault hang`
     try {
       hexasm::Lexer lexer;
@@ -62,6 +63,10 @@ int main(int argc, char **argv) {
       res = "diag " + className(e) + " " + (e.hasLocation() ? e.getLocation().str() : std::string("no location"));
     } catch (const std::exception &e) {
       res = "diag " + className(e) + " no location";
+    }
+    if (res.rfind("diag", 0) == 0) {   // a diagnostic must come with no output: report what the real code left behind
+      std::ifstream f("h_asm.out", std::ios::binary);
+      if (f.good()) { std::stringstream bin; bin << f.rdbuf(); res += " LEFT=" + std::to_string(bin.str().size()); }
     }
     std::cout << res << "\n";
     std::cout.flush();
